@@ -30,8 +30,11 @@ def _heights(n):
 
 def _call(link, x, t, dtype=float):
     """-> (labels list, None) or (None, repr of the exception)."""
-    x = np.asarray(x, float)
-    P = np.column_stack([x, _heights(len(x))]).astype(dtype)
+    if dtype is np.int64:          # built from Python ints: values above 2^53 must not pass through binary64
+        P = np.column_stack([np.array([int(v) for v in x], dtype=np.int64), np.asarray(_heights(len(x))).astype(np.int64)])
+    else:
+        x = np.asarray(x, float)
+        P = np.column_stack([x, _heights(len(x))]).astype(dtype)
     try:
         r = _fn(link)(P, t)
         return [int(v) for v in np.asarray(r).tolist()], None
@@ -58,8 +61,12 @@ def _replay_group(g):
     first = None
     # the rule is invariant under x -> a*x + b; both variants are exact in binary64 (dyadic a, small integers)
     # ... and the same integer layout stored as an int64 array (the property quantifies over arrays of points)
-    for name, xv in (("grid", [float(v) for v in x]), ("affine", [0.25 * v + 100.0 for v in x]), ("int64", [int(v) for v in x])):
-        got, err = _call(g["link"], xv, t, np.int64 if name == "int64" else float)
+    variants = [("grid", [float(v) for v in x]), ("affine", [0.25 * v + 100.0 for v in x]), ("int64", [int(v) for v in x])]
+    if g["link"] in ("single", "complete"):
+        # integer abscissae beyond 2^53 (nanosecond timestamps): gaps and range are exact in int64, not in binary64
+        variants.append(("int64-big", [int(v) + 2 ** 60 for v in x]))
+    for name, xv in variants:
+        got, err = _call(g["link"], xv, t, np.int64 if name.startswith("int64") else float)
         if first is None:
             first = got
         if err is not None:
